@@ -30,6 +30,7 @@ DELAYS = [0.0, 0.05, 0.099, 0.101, 1.0]
 NRS = [None, 2, 8, 16, 26]
 RCODES = [69, 128, 163]
 MC = "ff02::fd"
+MC4 = "224.0.1.187"  # the IPv4 "All CoAP Nodes" group: arrives v4-mapped on the dual-stack socket
 
 
 def cells(tier="quick"):
@@ -38,6 +39,7 @@ def cells(tier="quick"):
         out.append((typ, 0, False, False, 0.0, None, 69))
         if typ != CON:
             out.append((typ, 0, False, True, 0.0, None, 69))
+            out.append((typ, 0, False, "v4", 0.0, None, 69))
         for code in REQ_CODES:
             if typ in (CON, NON):
                 for d in DELAYS:
@@ -48,19 +50,21 @@ def cells(tier="quick"):
                     for d in (0.0, 1.0):
                         for nr in (None, 26):
                             out.append((typ, code, False, True, d, nr, 69))
+                            out.append((typ, code, False, "v4", d, nr, 69))
             else:
                 out.append((typ, code, False, False, 0.0, None, 69))
                 out.append((typ, code, False, True, 0.0, None, 69))
+                out.append((typ, code, False, "v4", 0.0, None, 69))
         for code in UNKNOWN_REQ:
             for d in (0.0,):
                 out.append((typ, code, False, False, d, None, 69))
         for code in RESP_CODES:
             for known in (False, True):
-                for mc in (False, True):
+                for mc in (False, True, "v4"):
                     out.append((typ, code, known, mc, 0.0, None, 69))
         for code in RESERVED:
             for known in (False, True):
-                for mc in (False, True):
+                for mc in (False, True, "v4"):
                     out.append((typ, code, known, mc, 0.0, None, 69))
     if tier == "thorough":
         # full code sweep (all 256 codes x 4 types), unknown token, unicast, immediate handler
@@ -196,7 +200,8 @@ def reactions(node, t_from, rc):
     out = []
     seen = set()
     for e in node.net.log:
-        if e.kind == "send" and e.src == node.S and e.t >= t_from - 1e-9:
+        # everything that is not from the peer is from the node, whatever source address it put on it
+        if e.kind == "send" and e.src != node.P and e.t >= t_from - 1e-9:
             if e.data in seen:
                 continue
             seen.add(e.data)
@@ -208,9 +213,13 @@ def check_multicast_invariant(node, rep, case, rc):
     import ipaddress
 
     for e in node.net.log:
+        if e.kind in ("send", "senderror") and e.src not in (node.P, node.S):
+            # (udp6.as_response_address is to strip a multicast local address from what becomes the reply's source)
+            rep.violation("reaction-sent-from-foreign-source-address", "the node put a source address on a datagram that is not its own unicast address (the address the request was sent to, e.g. a multicast group)", {"event": e.brief()}, case)
         if e.kind == "send" and e.msg is not None and e.src == node.S:
             rep.monitor("con_never_to_multicast")
-            if e.msg.type == rc.CON and ipaddress.ip_address(e.dst[0]).is_multicast:
+            a = ipaddress.ip_address(e.dst[0])
+            if e.msg.type == rc.CON and (getattr(a, "ipv4_mapped", None) or a).is_multicast:
                 rep.violation("con-sent-to-multicast", "a confirmable message was sent to a multicast destination", {"event": e.brief()}, case)
 
 
@@ -273,7 +282,7 @@ def cell_key(cell):
     if cls == "request" and typ in (CON, NON):
         extra = "-" + ("fast" if d < 0.1 else "slow") + ("-noresp" if suppressed(nr, rcode) else "")
     if cls == "response":
-        extra = "-" + ("known" if known else "unknown") + ("-mc" if mc else "")
+        extra = "-" + ("known" if known else "unknown") + ("-mc4" if mc == "v4" else "-mc" if mc else "")
     return "%s-%s%s" % ("CON NON ACK RST".split()[typ], cls, extra)
 
 
@@ -294,7 +303,7 @@ def run_cell(cell, seed, rep, case, busy=False, mid=0x7001, dup_at=()):
         if known and not node.known_tokens:
             box["inconc"] = "node's request never reached the peer"
         msg = node.build(cell, mid, token, rc)
-        dst = simnet.addr(MC, 5683) if mc else node.S
+        dst = simnet.addr(MC4 if mc == "v4" else MC, 5683) if mc else node.S
         t0 = loop.time()
         node.peer.send(dst, msg)
         # the network (or a retransmitting peer) delivers the very same datagram again: "exactly once under its
@@ -366,7 +375,7 @@ def run_sequence(seq_cells, seed, rep, case, drop_misfits=False):
             if known and tok == (node.known_tokens[0] if node.known_tokens else None) and typ in (CON, NON, ACK):
                 known_used = True
             t0 = loop.time()
-            node.peer.send(simnet.addr(MC, 5683) if mc else node.S, msg)
+            node.peer.send(simnet.addr(MC4 if mc == "v4" else MC, 5683) if mc else node.S, msg)
             sent.append((cell, msg, t0 + 0.001))
             await asyncio.sleep(0.05)
         await asyncio.sleep(3.0)
@@ -557,7 +566,7 @@ def run_sequence_fixed(seq, seq2, seed, rep, case):
                 known_used = True
             t0 = loop.time()
             if i in keep:
-                node.peer.send(simnet.addr(MC, 5683) if mc else node.S, msg)
+                node.peer.send(simnet.addr(MC4 if mc == "v4" else MC, 5683) if mc else node.S, msg)
                 sent.append((cell, msg, t0 + 0.001))
             await asyncio.sleep(0.05)
         await asyncio.sleep(3.0)
